@@ -68,7 +68,8 @@ def build_fw(run):
     o2 = cbuild.obj(run, os.path.join(vf.ROOT, "harness/c/c11_fw_harness.c"), "c11_fw_harness",
                     flags=["-DHOST_BUILD"], includes=[run.scratch, cbuild.SHIM, cbuild.LIBOSMO_INC, cbuild.TOP_INC],
                     idirafter=[cbuild.FW_INC])
-    run.c11_fw = cbuild.link(run, [o2, o1, cbuild.console_sink(run)], "c11_fw_harness.bin")
+    sib = cbuild.sibling_objs(run, [o2, o1, cbuild.console_sink(run)], "layer1", "c11_fw", extra_flags=cbuild.CONSOLE_FLAGS)
+    run.c11_fw = cbuild.link(run, [o2, o1] + sib + [cbuild.console_sink(run)], "c11_fw_harness.bin")
     return run.c11_fw
 
 
